@@ -6,6 +6,7 @@
 import BB.Model.Codec
 import BB.Gen.KFloat
 import BB.Model.Ripasso
+import BB.Model.Heap
 
 open Lean BB BB.Codec
 
@@ -321,11 +322,177 @@ def step (p : Pool) (op : Json) : Pool × Json :=
     | none => (p, Json.mkObj [("err", Json.str "bad-op")])
   else (p, Json.mkObj [("err", Json.str "bad-op")])
 
-def runProgram (ops : List Json) : List Json :=
-  let rec go (p : Pool) : List Json → List Json
+/-! ### the reference-level model (BB.Model.Heap) runs next to the value model: every op is
+    mapped to the program of the method it calls; acceptance and the structural parameters
+    (how many positions a sweep produced) are taken from the value model's own result -/
+
+structure HeapDrv where
+  st : Heap.State := {}
+  tok : Nat := 1
+  /-- what each user-held object looked like at the last summary -/
+  prev : List (String × String) := []
+  /-- objects a refused call may have touched -/
+  maybe : List String := []
+
+def chanKey (j : Json) : String :=
+  match j with
+  | .str s => "s:" ++ s
+  | j => match asInt? j with | some n => toString n | none => j.compress
+
+def hvar (d : HeapDrv) (k : String) : Option Heap.Addr := d.st.vars.lookup k
+
+def hAct (d : HeapDrv) (target : String) (p : Heap.Addr → Heap.Prog Unit) : HeapDrv :=
+  -- a program that refers to an object an earlier (shrunk away / refused) op did not create is skipped
+  match hvar d target with
+  | some _ => { d with st := d.st.call (.act target p) }
+  | none => d
+
+def hQuery (d : HeapDrv) (target : String) (p : Heap.Addr → Heap.Prog Unit) : HeapDrv :=
+  match hvar d target with
+  | some _ => { d with st := d.st.call (.query target p) }
+  | none => d
+
+def hDerive (d : HeapDrv) (name : String) (p : Heap.Prog Heap.Addr) : HeapDrv :=
+  { d with st := d.st.call (.derive name p) }
+
+def isOk (r : Json) : Bool := match r with | .obj _ => (getField r "ok" != Json.null) || (r.compress == "{\"ok\":null}") | _ => false
+
+def heapStep (d : HeapDrv) (op : Json) (r : Json) (p' : Pool) : HeapDrv :=
+  let o := fStr op "op"
+  let ok := isOk r
+  let d := { d with tok := d.tok + 1 }
+  let t := d.tok
+  let id := fStr op "id"
+  let refused (x : String) : HeapDrv := { d with maybe := x :: d.maybe }
+  if o = "bp.new" then hDerive d id Heap.bpNew
+  else if o = "el.new" then hDerive d id Heap.elNew
+  else if o = "sq.new" then hDerive d id Heap.sqNew
+  else if ["bp.insert", "bp.remove", "bp.changeArg", "bp.changeDur", "bp.setSegMarker", "bp.removeSegMarker", "bp.appendMarker", "bp.setSR"].contains o then
+    if ok then hAct d id (Heap.bpMutate t) else refused id
+  else if o = "bp.setMarker" then
+    if ok then hAct d id (fun b => Heap.bpSetMarker t b ("marker" ++ toString (fInt op "which"))) else refused id
+  else if o = "bp.copy" || o = "bp.json" then
+    match hvar d id with
+    | some x => if ok then hDerive d (fStr op "to") (Heap.bpCopy x) else d
+    | none => d
+  else if o = "bp.add" then
+    match hvar d (fStr op "a"), hvar d (fStr op "b") with
+    | some a, some b => if ok then hDerive d (fStr op "to") (Heap.bpAdd a b) else d
+    | _, _ => d
+  else if o = "el.addBP" then
+    match hvar d (fStr op "bp") with
+    | some b => if ok then hAct d id (fun e => Heap.elAddBP e (chanKey (getField op "ch")) b) else refused id
+    | none => d
+  else if o = "el.addArray" then
+    let names := ((asArr (getField op "kw")).map (fun kv => (asStr? ((asArr kv).headD Json.null)).getD "")) ++ ["wfm"]
+    if ok then hAct d id (fun e => Heap.elAddArray t e (chanKey (getField op "ch")) names)
+    else hAct (refused id) id (fun e => Heap.elAddArrayBroken e (chanKey (getField op "ch")))
+  else if o = "el.addFlags" then
+    if ok then hAct d id (fun e => Heap.elAddFlags t e (chanKey (getField op "ch"))) else refused id
+  else if o = "el.copy" || o = "el.json" then
+    match hvar d id with
+    | some x => if ok then hDerive d (fStr op "to") (Heap.elCopy x) else d
+    | none => d
+  else if o = "el.changeArg" || o = "el.changeDur" then
+    if ok then hAct d id (fun e => Heap.elMutateBP t e (chanKey (getField op "ch"))) else refused id
+  else if ["el.validate", "el.SR", "el.points", "el.duration"].contains o then
+    if ok then hQuery d id (Heap.elValidate t) else d
+  else if o = "sq.setSR" then (if ok then hAct d id (fun s => Heap.sqSetSpec t s "SR") else refused id)
+  else if o = "sq.setAmp" then (if ok then hAct d id (fun s => Heap.sqSetSpec t s ("amp:" ++ chanKey (getField op "ch"))) else refused id)
+  else if o = "sq.setOff" then (if ok then hAct d id (fun s => Heap.sqSetSpec t s ("off:" ++ chanKey (getField op "ch"))) else refused id)
+  else if o = "sq.setDelay" then (if ok then hAct d id (fun s => Heap.sqSetSpec t s ("delay:" ++ chanKey (getField op "ch"))) else refused id)
+  else if o = "sq.setFilter" then
+    if ok then hAct d id (fun s => Heap.sqSetFilter t s ("filter:" ++ chanKey (getField op "ch"))) else refused id
+  else if o = "sq.setSeq" then
+    if ok then hAct d id (fun s => Heap.sqSetSeq t s (toString (fInt op "pos")) (fStr op "field")) else refused id
+  else if o = "sq.setSeqSettings" then
+    if ok then hAct d id (fun s => Heap.sqSetSeqSettings t s (toString (fInt op "pos"))) else refused id
+  else if o = "sq.setName" then (if ok then hAct d id (Heap.sqSetName t) else refused id)
+  else if o = "sq.addElement" then
+    match hvar d (fStr op "el") with
+    | some e => if ok then hAct d id (fun s => Heap.sqAddElement t s (toString (fInt op "pos")) e) else refused id
+    | none => d
+  else if o = "sq.addSub" then
+    match hvar d (fStr op "sub") with
+    | some sub => if ok then hAct d id (fun s => Heap.sqAddSub s (toString (fInt op "pos")) sub) else refused id
+    | none => d
+  else if o = "sq.copy" || o = "sq.json" then
+    match hvar d id with
+    | some x => if ok then hDerive d (fStr op "to") (Heap.sqCopy x) else d
+    | none => d
+  else if o = "sq.add" then
+    match hvar d (fStr op "a"), hvar d (fStr op "b") with
+    | some a, some b => if ok then hDerive d (fStr op "to") (Heap.sqAdd a b) else d
+    | _, _ => d
+  else if o = "sq.elChangeArg" || o = "sq.elChangeDur" then
+    if ok then hAct d id (fun s => Heap.sqElMutate t s (toString (fInt op "pos")) (chanKey (getField op "ch"))) else refused id
+  else if ["sq.forge", "sq.awg", "sq.seqx"].contains o then
+    if ok then hQuery d id (Heap.sqForge t) else d
+  else if o = "tl.linvary" then
+    match hvar d (fStr op "base"), p'.sq? (fStr op "to") with
+    | some base, some res =>
+      if ok then hDerive d (fStr op "to") (Heap.tlLinVary t base (chanKey (getField op "ch")) (res.data.map (fun pe => toString pe.1))) else d
+    | _, _ => d
+  else if o = "tl.vary" then
+    match hvar d (fStr op "base"), p'.sq? (fStr op "to") with
+    | some base, some res =>
+      let poss := res.data.map (fun pe => toString pe.1)
+      let edits := ((asArr (getField op "vars")).map (fun v => poss.map (fun pos => (pos, chanKey (getField v "chan"))))).flatten
+      if ok then hDerive d (fStr op "to") (Heap.tlVary t base poss edits) else d
+    | _, _ => d
+  else if o = "tl.repvary" then
+    match hvar d (fStr op "seq") with
+    | some sq =>
+      let vars := asArr (getField op "vars")
+      let steps := match vars with | v :: _ => (asArr (getField v "vals")).length | [] => 0
+      let edits := ((asArr (getField op "poss")).zip vars).map (fun pv => (toString ((asInt? pv.1).getD 0), chanKey (getField pv.2 "chan")))
+      if ok then hDerive d (fStr op "to") (Heap.tlRepVary t sq steps edits) else d
+    | none => d
+  else d
+
+def dedup (l : List Nat) : List Nat := l.foldl (fun acc a => if acc.contains a then acc else acc ++ [a]) []
+
+/-- per pair of user-held objects: how many mutable cells, nested filter dicts and arrays they
+    share; and which objects look different from the last summary -/
+def heapSummary (d : HeapDrv) (names : List String) : HeapDrv × Json :=
+  let h := d.st.heap
+  let fuel := Heap.depth + 4
+  let live := names.filterMap (fun n => (hvar d n).map (fun a => (n, a)))
+  let reaches := live.map (fun na => (na.1, dedup (Heap.reach fuel h na.2)))
+  let count (l : List Nat) (pred : Heap.Kind → Bool) : Nat :=
+    (l.filter (fun a => match h[a]? with | some c => pred c.kind | none => false)).length
+  let rec pairs : List (String × List Nat) → List Json
     | [] => []
-    | op :: rest => let (p', r) := step p op; r :: go p' rest
-  go {} ops
+    | x :: rest =>
+      (rest.filterMap (fun y =>
+        let sh := x.2.filter (fun a => y.2.contains a)
+        if sh.isEmpty then none
+        else
+          let (a, b) := if x.1 < y.1 then (x.1, y.1) else (y.1, x.1)
+          some (Json.arr #[Json.str a, Json.str b,
+            Json.num (count sh (fun k => !k.frozen) : Nat), Json.num (count sh (fun k => k == .filterDict) : Nat),
+            Json.num (count sh (fun k => k == .ndarray) : Nat)]))) ++ pairs rest
+  let shared := pairs reaches
+  let now := live.map (fun na => (na.1, toString (repr (Heap.unfold fuel h na.2))))
+  let changed := now.filterMap (fun ns =>
+    match d.prev.lookup ns.1 with
+    | some old => if old == ns.2 && !(d.maybe.contains ns.1) then none else some ns.1
+    | none => none)
+  ({ d with prev := now, maybe := [] },
+   jOk (Json.mkObj [("fault", Json.bool d.st.fault), ("shared", Json.arr shared.toArray),
+                    ("changed", Json.arr (changed.map Json.str).toArray), ("cells", Json.num (h.length : Nat))]))
+
+def runProgram (ops : List Json) : List Json :=
+  let rec go (p : Pool) (d : HeapDrv) : List Json → List Json
+    | [] => []
+    | op :: rest =>
+      if fStr op "op" = "heap.summary" then
+        let (d', r) := heapSummary d ((asArr (getField op "vars")).filterMap asStr?)
+        r :: go p d' rest
+      else
+        let (p', r) := step p op
+        r :: go p' (heapStep d op r p') rest
+  go {} {} ops
 
 partial def loop (h : IO.FS.Stream) (out : IO.FS.Stream) : IO Unit := do
   let line ← h.getLine
